@@ -145,3 +145,15 @@ fn sii_write_request() {
     let b = crate::eeprom::types::SiiRequest::write(a).pack();
     assert!(b == [0x01, 0x02, a as u8, (a >> 8) as u8, 0, 0]);
 }
+
+//@h name=sii_read_request props=C12,C09 fn=src/eeprom/types.rs::SiiRequest::read obligation="the EEPROM read request for word address a packs to [0x00, 0x01, a_lo, a_hi, 0, 0] (read-only access, read strobe, address in bytes 2..4) for every a - the bytes the Verus unit eeprom_device assumes; chunk_len is 4 / 8 octets"
+#[cfg_attr(kani, kani::proof)]
+#[cfg_attr(kani, kani::unwind(8))]
+#[cfg_attr(all(test, verif_replay), test)]
+fn sii_read_request() {
+    use ethercrab_wire::EtherCrabWireWriteSized;
+    let a: u16 = vk::any();
+    let b = crate::eeprom::types::SiiRequest::read(a).pack();
+    assert!(b == [0x00, 0x01, a as u8, (a >> 8) as u8, 0, 0]);
+    assert!(crate::eeprom::types::SiiReadSize::Octets4.chunk_len() == 4 && crate::eeprom::types::SiiReadSize::Octets8.chunk_len() == 8);
+}
